@@ -474,6 +474,18 @@ fn run_new_cells(cx: &mut Ctx, args: &Args) {
     let fixed = vec![c13_io::Item::U8(0x80), c13_io::Item::U16(0x1234), c13_io::Item::Var(300), c13_io::Item::Str("h\u{e9}llo".into()), c13_io::Item::U32(0xDEADBEEF),
         c13_io::Item::Bytes(vec![7; 130]), c13_io::Item::Skip(vec![1, 2, 3]), c13_io::Item::U64(u64::MAX), c13_io::Item::Var(u64::MAX), c13_io::Item::Raw(vec![9, 8]), c13_io::Item::RawStr("xyz".into())];
     for o in 0..c13_io::N_OUT { for i in 0..c13_io::N_IN { c13_io::data_io(cx, &fixed, o, i, &[0xFE, 0x80], (o * 31 + i * 7) as u64); c13_io::data_io(cx, &[], o, i, &[], 0); } }
+    // long length-prefixed values: read_vec grows its buffer in 64 KiB steps (since the C15 repair), the buffered
+    // back ends refill many times; lengths just below / at / above one and two steps, through every input back end
+    for (k, &n) in [65535usize, 65536, 65537, 100_000, 131_072, 131_073].iter().enumerate() {
+        for i in 0..c13_io::N_IN {
+            if !t && (k + i) % 2 == 1 { continue; }
+            let blob: Vec<u8> = (0..n).map(|x| ((x as u32).wrapping_mul(2654435761) >> 13) as u8).collect();
+            let long = if k % 2 == 0 { c13_io::Item::Bytes(blob) } else { c13_io::Item::Str(blob.iter().map(|b| (b'a' + b % 26) as char).collect()) };
+            let items = vec![c13_io::Item::U8(1), long, c13_io::Item::Var(300), c13_io::Item::Raw(vec![5; 3])];
+            cx.sum.dist("data_io_long_value");
+            c13_io::data_io(cx, &items, (k + i) % c13_io::N_OUT, i, &[0xFE], (k * 13 + i) as u64);
+        }
+    }
     for _ in 0..(if t { 12000 } else { 900 }) {
         let mut r = cx.rng.clone();
         let n = match r.below(4) { 0 => r.below(3), 1 => 12 + r.below(20), _ => 1 + r.below(8) } as usize;
